@@ -71,7 +71,7 @@ class Pb(Harness):
         S.append(dict(fam="B", n=2, pat=["two", "fixed"], scale=True, lin=1, nl=1, inside=True))
         S.append(dict(fam="B", n=2, pat=["two", "two"], scale=True, lin=1, nl=1, inside=False))
         # family C: concrete point, symbolic coefficients (incl. NaN) and limits
-        S.append(dict(fam="C", n=2, pat=["free", "free"], scale=False, lin=2, nl=0, inside=True))
+        S.append(dict(fam="C", n=2, pat=["free", "free"], scale=False, lin=1, nl=0, inside=True))
         S.append(dict(fam="C", n=2, pat=["two", "fixed"], scale=False, lin=1, nl=0, inside=True))
         # vector-valued nonlinear constraints and several objects, mixed limit patterns in one object
         S.append(dict(fam="A", n=1, pat=["free"], scale=False, lin=0, nl=2, inside=True))
@@ -84,7 +84,7 @@ class Pb(Harness):
                 S.append(dict(fam="A", n=2, pat=list(pp), scale=False, lin=1, nl=1, inside=True))
             S.append(dict(fam="A", n=1, pat=["two"], scale=False, lin=2, nl=2, m=2, inside=True))
             S.append(dict(fam="B", n=2, pat=["two", "two"], scale=True, lin=2, nl=1, m=2, inside=True))
-            S.append(dict(fam="C", n=2, pat=["free", "free"], scale=False, lin=2, m=2, nl=0, inside=True))
+            S.append(dict(fam="C", n=2, pat=["free", "free"], scale=False, lin=2, nl=0, inside=True))
             S.append(dict(fam="A", n=2, pat=["free", "free"], scale=False, lin=0, nl=1, m=3, inside=True))
         if prop == "C17":
             S = [s for s in S if s["lin"] or s["nl"]]
